@@ -103,6 +103,15 @@ func bgAnalyseFn(c *Ctx, fn *ssa.Function, name string) *bgInfo {
 					bi.spawnHow[f] = "errgroup"
 					bi.spawnAt[f] = x
 				}
+			} else if cal := staticCallee(&x.Call); cal != nil && cal.Blocks != nil && rootFn(cal).Pkg == rootFn(fn).Pkg && cal.Parent() == nil {
+				// out.spawn(func() { … }): an in-package helper that accounts for and starts the goroutine itself
+				for ai, a := range x.Call.Args {
+					if f := literalOf(a, fn); f != nil && goLauncher(cal, ai) {
+						bi.spawned = append(bi.spawned, f)
+						bi.spawnHow[f] = "launcher"
+						bi.spawnAt[f] = x
+					}
+				}
 			}
 		}
 	})
@@ -496,6 +505,13 @@ func ruleWgCount(c *Ctx, r *R, names ...string) {
 				}
 			}
 		})
+		nl := 0
+		for _, g := range bi.spawned {
+			if bi.spawnHow[g] == "launcher" {
+				nl++
+				r.discharged(name+"|wg-add:launcher#"+itoa(nl), bi.spawnAt[g].Pos(), "started through a helper that calls wg.Add(1) before its go statement and defers wg.Done() first in the goroutine")
+			}
+		}
 		goN := 0
 		allFirst := true
 		var firstSpawn ssa.Instruction
@@ -565,3 +581,75 @@ func ruleWgCount(c *Ctx, r *R, names ...string) {
 
 var _ = sort.Strings
 var _ types.Type
+
+// goLauncher: h is a self-accounting goroutine launcher for its func parameter #ai: it calls WaitGroup.Add(1) unconditionally
+// before its only go statement, the goroutine's first deferred call is WaitGroup.Done(), it calls the parameter
+// unconditionally, and h does nothing else with the parameter.
+func goLauncher(h *ssa.Function, ai int) bool {
+	h = origin(h)
+	if ai >= len(h.Params) || h.Blocks == nil {
+		return false
+	}
+	prm := h.Params[ai]
+	if _, isFunc := prm.Type().Underlying().(*types.Signature); !isFunc {
+		return false
+	}
+	var goIn *ssa.Go
+	var add *ssa.Call
+	nGo := 0
+	instrs(h, func(b *ssa.BasicBlock, i int, in ssa.Instruction) {
+		switch x := in.(type) {
+		case *ssa.Go:
+			goIn = x
+			nGo++
+		case *ssa.Call:
+			if cal := x.Call.StaticCallee(); cal != nil && cal.Name() == "Add" && cal.Signature.Recv() != nil && isNamedType(cal.Signature.Recv().Type(), "sync", "WaitGroup") && isConstInt(x.Call.Args[len(x.Call.Args)-1], 1) {
+				add = x
+			}
+		}
+	})
+	if nGo != 1 || add == nil || add.Block() != h.Blocks[0] || goIn.Block() != h.Blocks[0] || idxIn(add) > idxIn(goIn) {
+		return false
+	}
+	g := staticCallee(&goIn.Call)
+	if g == nil || g.Parent() != h || len(g.Blocks) == 0 {
+		return false
+	}
+	var firstDefer *ssa.Defer
+	calls := false
+	for _, in := range g.Blocks[0].Instrs {
+		if d, ok := in.(*ssa.Defer); ok && firstDefer == nil {
+			firstDefer = d
+		}
+		if call, ok := in.(*ssa.Call); ok && firstDefer != nil {
+			if valueProv(call.Call.Value, provEnv{}).root == ssa.Value(prm) {
+				calls = true
+			}
+		}
+	}
+	if firstDefer == nil || !calls {
+		return false
+	}
+	if cal := firstDefer.Call.StaticCallee(); cal == nil || cal.Name() != "Done" || cal.Signature.Recv() == nil || !isNamedType(cal.Signature.Recv().Type(), "sync", "WaitGroup") {
+		return false
+	}
+	// nothing else is done with the parameter in h itself (it is only captured by the goroutine)
+	if prm.Referrers() != nil {
+		for _, ref := range *prm.Referrers() {
+			switch x := ref.(type) {
+			case *ssa.DebugRef:
+			case *ssa.Store:
+				if _, isCell := x.Addr.(*ssa.Alloc); !isCell {
+					return false
+				}
+			case *ssa.MakeClosure:
+				if x.Fn != ssa.Value(g) {
+					return false
+				}
+			default:
+				return false
+			}
+		}
+	}
+	return true
+}
